@@ -266,10 +266,29 @@ impl Scenario for WalletScenario {
                                 let at = 50 + ch.below("sql.at", 6000);
                                 let counter = std::sync::Arc::new(std::sync::atomic::AtomicU64::new(0));
                                 let c2 = counter.clone();
-                                s.conn.progress_handler(1, Some(move || c2.fetch_add(1, std::sync::atomic::Ordering::Relaxed) + 1 == at));
+                                // delivered once, at the first VM step >= `at` that is not inside a transaction-control
+                                // statement (see atomic::stmt_tracer: an interrupted BEGIN / ROLLBACK is an artefact of
+                                // sqlite3_interrupt, not of the I/O failure it stands for)
+                                let done = std::sync::Arc::new(std::sync::atomic::AtomicBool::new(false));
+                                let d2 = done.clone();
+                                crate::atomic::IN_ROLLBACK.with(|c| c.set(false));
+                                s.conn.trace_v2(rusqlite::trace::TraceEventCodes::SQLITE_TRACE_STMT, Some(crate::atomic::stmt_tracer));
+                                s.conn.progress_handler(
+                                    1,
+                                    Some(move || {
+                                        let k = c2.fetch_add(1, std::sync::atomic::Ordering::Relaxed) + 1;
+                                        crate::atomic::STEP_DBG.with(|c| c.set(k));
+                                        if k >= at && !d2.load(std::sync::atomic::Ordering::Relaxed) && !crate::atomic::IN_ROLLBACK.with(|c| c.get()) {
+                                            d2.store(true, std::sync::atomic::Ordering::Relaxed);
+                                            return true;
+                                        }
+                                        false
+                                    }),
+                                );
                                 let r = s.scan(from, limit, &src, ctx);
                                 s.conn.progress_handler(1, None::<fn() -> bool>);
-                                let fired = counter.load(std::sync::atomic::Ordering::Relaxed) >= at;
+                                s.conn.trace_v2(rusqlite::trace::TraceEventCodes::SQLITE_TRACE_STMT, None);
+                                let fired = done.load(std::sync::atomic::Ordering::Relaxed);
                                 if fired {
                                     ctx.fault("sql_interrupt@step");
                                 }
